@@ -389,6 +389,8 @@ func (m *Model) Predict(u *universe, op Op) Pred {
 		return Pred{Ok: mustOK, Why: "tag present"}
 	case "Reads":
 		return Pred{Ok: mustOK, Why: "reading changes nothing"}
+	case "BackdoorDeleteManifest":
+		return Pred{Ok: either, Why: "made directly on the underlying registry"}
 	case "Start":
 		if !validRepo {
 			return Pred{Ok: mustFail, Why: "invalid repository name"}
@@ -475,7 +477,7 @@ func (m *Model) Advance(u *universe, op Op, ok bool) {
 		if ok {
 			delete(m.repo(op.Repo, true).Blobs, sha256Digest(u.Blobs[op.B]))
 		}
-	case "DeleteManifest":
+	case "DeleteManifest", "BackdoorDeleteManifest":
 		if ok {
 			delete(m.repo(op.Repo, true).Mans, sha256Digest(u.Manifests[op.M].Data))
 		}
